@@ -500,6 +500,12 @@ func init() {
 			e.call(cl.Fn, nil, cl.Env)
 			return joinStr(e.stderr[n:])
 		},
+		rtPkg + "CaptureStdout": func(e *Engine, _ *ssa.Function, a []Value) Value {
+			cl := a[0].(*Closure)
+			n := len(e.stdout)
+			e.call(cl.Fn, nil, cl.Env)
+			return joinStr(e.stdout[n:])
+		},
 		rtPkg + "LastPanic": func(e *Engine, _ *ssa.Function, a []Value) Value { return e.lastPanic },
 		rtPkg + "Stderr":    func(e *Engine, _ *ssa.Function, a []Value) Value { return joinStr(e.stderr) },
 		rtPkg + "Stdout":    func(e *Engine, _ *ssa.Function, a []Value) Value { return joinStr(e.stdout) },
